@@ -17,11 +17,11 @@ CLAIMS = {
  "C04": dict(cat="exploration", tech="rapid grammar-based generation (values files, every --set flag family printed from an AST, chart trees) against independent reference models: layered merge, path assignment, chart-tree coalescing; aliasing detected by mutating the result",
    text="Three generated-input properties: Options.MergeValues against the documented flag precedence; every strvals parser applied to a random base against a reference path assignment (typing + frame rule); ToRenderValues over chart trees up to three subchart levels against a reference coalescer, plus immutability of defaults and caller maps.",
    note="Literal classes limited to documented ones; ill-typed assignments and scalar-vs-table clashes of sections/global are counted, not judged."),
- "C05": dict(cat="exploration", tech="rapid grammar-based chart generation; metamorphic oracles: repetition, load-order permutation, concurrent renders, and twin renders under two host states (environment, cwd, canary files, schema $ref targets)",
+ "C05": dict(cat="exploration", tech="rapid grammar-based chart generation; metamorphic oracles: repetition, load-order permutation, renders of the same chart under other release options in between and alongside (also in a race-detector binary), and twin renders under two host states (environment, cwd, canary files, schema $ref targets)",
    text="Charts generated from a grammar of deterministic template functions are rendered repeatedly, with permuted load order and concurrently: manifests, hooks with order, notes and error texts must be identical; twin renders under different environment variables, working directories and host file contents must be identical and must not contain host content; env/expandenv must not exist; getHostByName yields nothing unless DNS is enabled (also on real upgrades); schema outcome must not follow host files.",
    note="Functions documented as random/time/cluster dependent are outside the grammar; process-wide cwd/env are changed and restored by the test."),
- "C06": dict(cat="exploration", tech="rapid generation of (history prefix, operation, dry-run spelling, flag set) with a metamorphic non-dry-run twin on a cloned world",
-   text="Every dry-run spelling x random flags x history states; the request log, the storage call log and before/after snapshots must show no write; the twin run proves the case could have written.",
+ "C06": dict(cat="exploration", tech="rapid generation of (history prefix incl. crash/failed-write residue, operation, dry-run spelling, flag set) with a metamorphic non-dry-run twin on a cloned world; plus rapid-generated command lines run through the real command tree (pkg/cmd) against a recording API-server stand-in",
+   text="Every dry-run spelling x random flags x history states; the request log, the storage call log and before/after snapshots must show no write; the twin run proves the case could have written. At command level, helm template / helm install --dry-run with every flag spelling must send no mutating request, and client-only template no request at all.",
    note="Simulated world as C01."),
  "C07": dict(cat="exploration", tech="rapid history generation with pre-existing objects in nine ownership variants and objects injected mid-operation; independent ownership predicate as oracle",
    text="Generated placements of foreign / partially labelled / owned objects before and during install, upgrade and install --replace with and without take-ownership; refusal must come before any write and leave cluster and history byte-identical.",
@@ -30,14 +30,14 @@ CLAIMS = {
    text="Generated multi-document template sets (hooks with known/unknown events, blank and comment documents, CRLF, odd separators, NOTES and partials) must be partitioned exactly once into manifest or hook list and ordered by the documented install/uninstall kind order; real installs/uninstalls with delayed requests must never start a later kind before an earlier kind completed.",
    note="Barrier part controls the schedule only by delaying requests in the simulator; a quiescence window can hide but never raise a violation."),
  "C09": dict(cat="exploration", tech="rapid-drawn schedules over a gate + scheduler that serialises concurrent operations at every storage call, cluster request and waiter call (shrinkable choice lists); bounded-exhaustive enumeration of all schedules with <= 2 pre-emptions; separate generated multi-goroutine workloads under the Go race detector",
-   text="Two or three concurrent installs (empty history) or upgrades (deployed history) run under a deterministic scheduler that owns the interleaving at the granularity the property names; at quiescence each storage key has one creator, losers failed with an in-progress/exists error without any write, windows do not overlap and the ledger is well-formed. The thorough tier enumerates every schedule with at most two pre-emptions for two operations on every backend (exhaustive for that bounded space only). Data races: generated concurrent workloads on each backend under -race.",
-   note="One call in flight per operation (one resource per kind, no hooks); fake clientset create is atomic; API-server optimistic concurrency not modelled; -race only sees races that the generated workloads execute."),
+   text="Two or three concurrent installs (empty history), install --replace (uninstalled history kept) or upgrades (deployed history of one or three revisions, with history limits) run under a deterministic scheduler that owns the interleaving at the granularity the property names; at quiescence each storage key has one creator, losers failed with an in-progress/exists error without any write, windows do not overlap and the ledger is well-formed. The thorough tier enumerates every schedule with at most two pre-emptions for two operations on every backend (exhaustive for that bounded space only). Data races: generated concurrent workloads on each backend under -race.",
+   note="One call in flight per operation (one resource per kind, no hooks); a loser may re-mark an uninstalled revision superseded and prune non-deployed, non-pending revisions (writes the winner makes too); fake clientset create is atomic; API-server optimistic concurrency not modelled; -race only sees races that the generated workloads execute."),
  "C10": dict(cat="exploration", tech="rapid state-machine (model-based) testing against a reference map, three backends in lock-step",
    text="Generated call sequences run in lock-step on the memory, Secret and ConfigMap backends and a reference map; every result and a periodic full scan are compared.",
    note="Secret/ConfigMap drivers run over client-go's fake clientset; SQL driver not covered."),
  "C13": dict(cat="exploration", tech="rapid generation of install/upgrade/rollback chains with a reference ledger of (user values, defaults in force); leaf-path comparison with stored Config and with a probe template's rendered .Values",
-   text="Chains of upgrades with every values flag, fresh value trees (nulls, empty tables, type changes), changing chart defaults and occasional failing upgrades, on the Secret backend; recorded values and what the templates saw are compared with a reference ledger.",
-   note="Single-level charts; JSON-native values; one genuine defect (reuse-values bakes effective values into chart defaults) listed as known finding."),
+   text="Chains of upgrades with every values flag, fresh or edited value trees (nulls, empty tables, type changes), changing chart and subchart defaults, occasional failing upgrades and failing deployed-revision lookups, on the Secret backend; recorded values and what the templates saw are compared with a reference ledger.",
+   note="One subchart level; JSON-native values; one genuine defect (reuse-values bakes effective values into chart defaults) listed as known finding."),
  "C11": dict(cat="exploration", tech="rapid generation of dependency trees (aliases, repeated charts, conditions, tags, globals, rejecting schemas) with sentinel leaves; independent enablement rule and scope reference; metamorphic sibling change",
    text="Generated dependency trees up to depth three rendered through a client-only dry-run install; the rendered probes, hooks, CRDs and schema enforcement must match an independent implementation of the documented enablement rule and value scoping; sentinel leak search and a metamorphic sibling change need no reference.",
    note="Tags read from the top-level table; two genuine defects around nested aliases listed as known findings (their combination is excluded by construction)."),
